@@ -15,6 +15,12 @@ The numeric estimators are not transcribed into TLA+ (DESIGN.md section 2): PepC
 (V) PepContractTrace.tla accepts iff the contract holds with eps = 1 quantum = 1/scale (1e-9 for PEPs).
 
 Python generates inputs, calls mokapot, projects floats to ints / flags; it does not decide the property.
+
+Rejected estimates are grouped into failure classes (api, algorithm, failed clauses, exception) printed as
+FAILURE-CLASS lines and stored in evidence coverage.failure_classes; the signature handed to ctx.reject carries
+api / alg / perm / ties / family / raised / raised_type / top_is_decoy / has_ties (+ failed) for known_findings.json.
+Expected on the current tree: qvality returns in descending-score order (F-06a); hist_nnls / from_peps raise
+TypeError nnls(atol=) (F-06b).
 """
 from __future__ import annotations
 
@@ -34,7 +40,7 @@ LEVEL = "exploration"
 SCALE = 10 ** 9
 SIZES = {"s100": (100, 160), "s300": (161, 500), "s1000": (501, 1000), "s5000": (1001, 5000)}
 REPS = {"quick": {"s100": 1, "s300": 1, "s1000": 1, "s5000": 0},
-        "thorough": {"s100": 12, "s300": 10, "s1000": 6, "s5000": 3}}
+        "thorough": {"s100": 10, "s300": 8, "s1000": 5, "s5000": 2}}
 FAMILIES = ["normal", "normal", "gumbel", "expo"]      # null-score family, drawn per case (normal twice as likely)
 AFFINE = [(1.0, 0.0), (1.0, 0.0), (0.05, -7.5), (40.0, 300.0)]
 MIX = {"separated": (0.5, 0.7, 5.0), "overlapping": (0.4, 0.6, 1.5), "mostly_null": (0.04, 0.1, 3.0)}
